@@ -20,6 +20,20 @@ Labels ==
     [] S.kind = "marker" ->
          LET w == MarkExp(S.key) IN
          IF E.marked # w.marked \/ E.key # w.key \/ E.mark # w.mark \/ E.clear # w.clear THEN {"X04-marker"} ELSE {}
+    [] S.kind = "plugin-name" ->
+         LET w == NameExp(S.key) IN
+         (IF w.ok # (E.err = "") THEN {"X04-plugin-name-result"} ELSE {})
+         \cup (IF w.ok /\ E.err = "" /\ (E.idx # w.idx \/ E.base # w.base) THEN {"X04-plugin-name-split"} ELSE {})
+         \cup (IF E.idxok # IdxOK(S.key) THEN {"X04-plugin-index"} ELSE {})
+    [] S.kind = "mask" ->
+         LET m == MaskExp(ToSet(S.set), ToSet(S.clr)) IN
+         (IF ToSet(E.names) # m THEN {"X04-mask-set-clear"} ELSE {})
+         \cup (IF ToSet(E.isset) # m THEN {"X04-mask-isset"} ELSE {})
+         \cup (IF E.pretty # PrettyExp(m) \o (IF S.extra THEN <<"unknown(0x80000)">> ELSE <<>>) THEN {"X04-mask-pretty"} ELSE {})
+         \cup (IF ~S.extra /\ m # {} /\ (E.reparse_err # "" \/ ToSet(E.reparsed) # m) THEN {"X04-mask-roundtrip"} ELSE {})
+         \* the empty mask prints as "", which ParseEventMask refuses like any other empty list element (Meaning)
+         \cup (IF ~S.extra /\ m = {} /\ E.reparse_err = "" THEN {"X04-mask-empty-parsed"} ELSE {})
+         \cup (IF S.extra /\ E.reparse_err = "" THEN {"X04-mask-unknown-parsed"} ELSE {})
     [] S.kind = "cmp-mount" -> IF E.eq # MountEq(S.a, S.b) THEN {"X04-mount-cmp"} ELSE {}
     [] S.kind = "cmp-device" -> IF E.eq # DeviceEq(S.a, S.b) THEN {"X04-device-cmp"} ELSE {}
     [] S.kind = "hooks" ->
